@@ -186,3 +186,7 @@ Lemma consumer_tag_resolves c :
 Proof.
   unfold consumer_tag. destruct (consumer_gen c) as [| | | |i]; cbn; eexists; (split; [reflexivity | split; [reflexivity | lia]]).
 Qed.
+
+(* model mutation score: the tag numbering of the scan is the inverse of gen_of_tag (all sub-envs share tag 4) *)
+Lemma gen_of_tag_of_gen g : gen_of_tag (tag_of_gen g) = Some (match g with GEnv _ => GEnv 0 | _ => g end).
+Proof. destruct g; reflexivity. Qed.
